@@ -14,6 +14,7 @@
 -/
 import CorgiProofs.PathSum
 import CorgiProofs.EngineFrame
+import CorgiProofs.Reachable
 
 set_option linter.unusedSectionVars false
 
@@ -58,6 +59,31 @@ theorem C01_grad_shape [AddLaws S] {G : Graph S} (sem : Sem G) (wf : G.WF) (lawf
     ∀ g, σ'.grad ℓ = some g → Shaped (sem.dimsOf ℓ) g :=
   (backward_pathsum sem ℓ 0 wf lawful fuel root hf dims seed σ σ' hclean hlog hg x hseed hxs hok).2
 
+
+/-- **Every path once, in every reachable state**: the value-free half holds for the pass on any
+    bound array in the state after any history of commands, with no assumption about the graph. -/
+theorem C01_every_path_once_reachable {σ σ' : State S} (hr : Reachable σ) (v : String) (h : Handle)
+    (seed : Option (Tensor S)) (hg : σ.get v = .ok h) (hok : σ.backward h seed = .ok σ') :
+    ∃ e : EState S, σ' = σ.withEState e ∧ σ.graph.WF ∧ σ.graph.Lawful ∧ σ.estate.Clean ∧
+      (logN e).Nodup ∧ (∀ m, m ∈ logN e ↔ Reach σ.graph h.node m) ∧ LogOrder σ.graph h.node (logN e) ∧ e.Clean := by
+  obtain ⟨e, _, he, hwf, hl, hc, h1, h2, h3⟩ := good_backward_counts hr.good (get_valid hr.good.roots hg) seed hok
+  exact ⟨e, he, hwf, hl, estate_clean σ hr.good.heap, h1, h2, h3, hc⟩
+
+/-- **The path-sum theorem in every reachable state**: the structural hypotheses of
+    `C01_backward_pathsum` (well-founded, lawful, clean start) are discharged by the reachability
+    invariant; what remains assumed is `Sem` — the per-operation value laws (C02). -/
+theorem C01_backward_pathsum_reachable [AddLaws S] {σ : State S} (hr : Reachable σ) (sem : Sem σ.graph)
+    (ℓ j : Nat) (v : String) (h : Handle) (seed : Option (Tensor S)) (hg : σ.get v = .ok h)
+    (hk : h.keep = sem.κ h.node)
+    (hgr : ∀ g, σ.estate.grad ℓ = some g → Shaped (sem.dimsOf ℓ) g)
+    (x : Tensor S) (hseed : seedOrOnes seed h.dims = .ok x) (hxs : Shaped (sem.dimsOf h.node) x)
+    (e : EState S) (hok : Corgi.backward σ.graph (σ.nodes.size + 1) h.node h.dims h.keep seed σ.estate = .ok e) :
+    gradVal ℓ j e = gradVal ℓ j σ.estate + P sem ℓ j h.node x := by
+  have hv := get_valid hr.good.roots hg
+  rw [hk] at hok
+  exact (backward_pathsum sem ℓ j (graph_wf σ hr.good.heap) (graph_lawful σ hr.good.heap) (σ.nodes.size + 1) h.node
+    (by have := hv.1; omega) h.dims seed σ.estate e (estate_clean σ hr.good.heap) rfl hgr x hseed hxs hok).1
+
 end Corgi
 
 #print axioms Corgi.C01_every_path_once
@@ -65,3 +91,5 @@ end Corgi
 #print axioms Corgi.C01_pathsum_unfold
 #print axioms Corgi.C01_leaf_stores
 #print axioms Corgi.C01_grad_shape
+#print axioms Corgi.C01_every_path_once_reachable
+#print axioms Corgi.C01_backward_pathsum_reachable
